@@ -122,8 +122,8 @@ structure Mon where
   mustEvent : Bool := false
   /-- the bounded item applied at the last effective sync -/
   applied : Option Item := none
-  /-- requests in flight: their id and whether they were admitted by the remote limiter in force now (not rebuilt,
-      not stopped since) -/
+  /-- requests in flight: their id and whether they were admitted by the remote limiter OBJECT in force now (the
+      wrapper not stopped, no new limiter object put into it since: `newBucket`, `stopsRemote`) -/
   held : List (Nat × Bool) := []
   /-- token-bucket count wrapper: tokens of requests sent and not answered (what `tokenInflight` must be) -/
   owed : Int := 0
@@ -359,8 +359,9 @@ def judgeDemand (m : Mon) (now : Int) (o : Obs) : List String :=
   then ["c09.no-tokens-requested-on-demand"] else []
 
 /-- **in-flight accounting**: when a request is admitted by the remote max-in-flight limiter, the requests admitted by
-    that limiter and unfinished — this one included, and across every resize, global-limit change, outage and recovery,
-    because none of these may replace the bucket that counts them — are at most the bound in force -/
+    that limiter and unfinished — this one included, and across every resize, global-limit change, strategy change
+    (the schema's or an answered one), outage and recovery, because none of these may replace the bucket that counts
+    them — are at most the bound in force. No exemption. -/
 def judgeAcquire (m : Mon) (id : Nat) (o : Obs) : List String :=
   let p := m.prev
   if o.admitted = some true ∧ !(m.held.any (·.1 == id)) ∧ p.choice = .remote ∧
